@@ -13,6 +13,10 @@ You can obtain one at http://mozilla.org/MPL/2.0/.
 #include "libfive/render/brep/per_thread_brep.hpp"
 #include "libfive/render/brep/dc/dc_tree.hpp"
 
+#ifdef LIBFIVE_VERIF
+#include "libfive/verif.hpp"
+#endif
+
 namespace libfive {
 
 template <Axis::Axis A>
@@ -120,6 +124,13 @@ void DCMesher::load(const std::array<const DCTree<3>*, 4>& ts)
         vs[i] = ts[i]->leaf->index[vi];
     }
 
+#ifdef LIBFIVE_VERIF
+    // the four vertex ids as loaded (before the polarity swap), axis and
+    // direction, and (below) which of the two triangulations is chosen
+    uint64_t verif_quad[6] = {vs[0], vs[1], vs[2], vs[3],
+                              (uint64_t)A * 2 + (D ? 1 : 0), 0};
+#endif
+
     // Handle polarity-based windings
     if (!D)
     {
@@ -158,11 +169,19 @@ void DCMesher::load(const std::array<const DCTree<3>*, 4>& ts)
 
     if (norms[0].dot(norms[3]) > norms[1].dot(norms[2]))
     {
+#ifdef LIBFIVE_VERIF
+        verif_quad[5] = 0;
+        LIBFIVE_VERIF_POINT(verif::SITE_QUAD, 0, 0, verif_quad);
+#endif
         push_triangle(vs[0], vs[1], vs[2]);
         push_triangle(vs[2], vs[1], vs[3]);
     }
     else
     {
+#ifdef LIBFIVE_VERIF
+        verif_quad[5] = 1;
+        LIBFIVE_VERIF_POINT(verif::SITE_QUAD, 0, 0, verif_quad);
+#endif
         push_triangle(vs[0], vs[1], vs[3]);
         push_triangle(vs[0], vs[3], vs[2]);
     }
